@@ -157,6 +157,9 @@ def r2(R, repo):
     axn = lambda lp_: {n_ for n_ in ('variable_in_axes', 'variable_out_axes') if lp_ is not None and n_ in astu.src(lp_.iter)}
     R.judge(len(axn(lr)) == 1 and len(axn(la)) == 1, okz, key_of(f, 'remove uses the in-axes, add uses the out-axes'), f, 'remove_axis must be zipped with variable_in_axes and add_axis with variable_out_axes (got `%s` / `%s`)' % (astu.short(lr.iter) if lr else None, astu.short(la.iter) if la else None))
     for kind, (lp, x) in (('remove', rem[0]), ('add', add[0])):
+      if lp is None or not isinstance(lp.target, ast.Tuple):
+        R.unsure(key_of(f, '%s_axis(group, its axis, metadata_params)' % kind), (f, x), 'meta.%s_axis is not called inside a loop over (group, axis) pairs' % kind)
+        continue
       tg = [astu.src(e) for e in lp.target.elts]
       okc = [astu.src(a) for a in x.args] == [tg[0], tg[1], 'metadata_params']
       R.judge(len(x.args) == 3 and len(tg) == 2 and sorted(astu.src(a) for a in x.args) == sorted([tg[0], tg[1], 'metadata_params']), okc, key_of(f, '%s_axis(group, its axis, metadata_params)' % kind), (f, x), 'meta.%s_axis must receive the group, the axis zipped with it and metadata_params' % kind)
